@@ -346,7 +346,7 @@ theorem simUF_init (n : Nat) : SimUF n 0 (UF.init n) Lab.id := by
     have h1 : ri = i := (hi.det (Reach.root (hroot i)))
     have h2 : rj = j := (hj.det (Reach.root (hroot j)))
     subst h1 h2
-    simp [Lab.id]
+    simp
 
 theorem SimUF.keep {n k : Nat} {uf uf' : UF} {lab : Lab} (h : SimUF n k uf lab) (hw : WF n k uf')
     (hpres : ∀ i ri, Reach uf.parent i ri → Reach uf'.parent i ri) : SimUF n k uf' lab := by
